@@ -55,7 +55,7 @@ def decide(r: Any, mode: MatchingMode, target_labels: Sequence[Any], thresholds:
         return "fp", False
     compat = matching.compatible(r.matching_label_policy, e, g)
     s, amb = result_score(r, mode)
-    near = amb < BOUNDARY or (s is not None and abs(s - thr) < BOUNDARY)
+    near = amb < BOUNDARY or (s is not None and matching.threshold_margin(mode, s, thr) < BOUNDARY)
     is_better = s is not None and matching.better(mode, s, thr)
     if O.is_fp_label(g):
         return ("tp" if not is_better else "fp"), near
